@@ -7,13 +7,13 @@ PROP = dict(
         dict(driver="dispatch", binary="zsafe", quick=3000, thorough=60000, shard=500,
              monitors=["dispatch_nil_safe (an item satisfying the archiver's invariant is processed without a panic)",
                        "not_archived_untouched (an item in another state is returned as it came)"]),
-        dict(driver="fuzz", binary="zsafe", quick=16000, thorough=300000, shard=4000,
+        dict(driver="fuzz", binary="zsafe", quick=12000, thorough=300000, shard=4000,
              monitors=["no_panic (recover() in the child caught nothing)",
                        "no_hang (the child answered within the watchdog; a missing answer counts when reproduced on a fresh child with the watchdog doubled)",
                        "no_crash (the child process survived: no fatal error, no out-of-memory; a death counts when reproduced on a fresh child)"]),
     ],
     partial="The theorems cover ZENO'S OWN byte-level code only (hasFileExtension, isLikelyJSON, GetShortID, the Link header parser, "
-            "extractFromScriptContent, srcsetURLs, the nil-safety of postprocessItem / extractAssets / extractOutlinks under the "
+            "extractFromScriptContent, srcsetURLs, reddit.ExtractAPIPostPermalinks, the nil-safety of postprocessItem / extractAssets / extractOutlinks under the "
             "archiver's invariant). Third-party decoders (x/net/html via goquery, encoding/json, encoding/xml, grafov/m3u8, pdfcpu, mimetype, "
             "xurls, fasturl, ada) are NOT modelled: for them the check is structure-aware fuzzing in isolated child processes (the `fuzz` leg), "
             "which is a search and not a proof - a silent run only says that no crasher was among this run's generated inputs. "
